@@ -19,7 +19,7 @@ from ..observe import AsyncRecorder, Recorder, run_async, run_sync
 ID = "C09"
 LEVEL = "fault_enumeration"
 BUDGET = {"quick": 960, "thorough": 16000}
-SHARDS = {"quick": 8, "thorough": 16}
+SHARDS = {"quick": 16, "thorough": 16}
 RULE = (
     "Hypothesis-generated programs (2-5 function nodes + 0-2 gates) with a drawn cacheable subset, deliberately including nodes "
     "that share one function under different output names / swapped input renames / identical signature, and gates sharing one "
